@@ -1312,7 +1312,9 @@ class Chord:
             silence = Silence(duration)
             return self(silence)
         else:
-            return self(**{part: melody.set_duration(duration) for part, melody in self.score.items()}, tags=self.tags)
+            # A part of length 0 has nothing to stretch (its melody cannot be scaled to a positive length): it is kept as it is
+            return self(**{part: melody.set_duration(duration) if (melody.duration != 0 or duration == 0) else melody.copy()
+                           for part, melody in self.score.items()}, tags=self.tags)
 
     def __getattr__(self, item):
         if item in STR_TO_DURATION.keys() and self.empty_score:
